@@ -16,14 +16,15 @@ open Opcua Opcua.Mon
 
 /-! ### (A) the right node -/
 
-/-- For every history in which no AddMonitorItems call passes the same
-    `*ua.MonitoringParameters` object in two requests: whatever a server item sends, the
-    message is delivered under the node that item samples — or as a "handle not found"
-    error (item removed meanwhile) — never under another node. -/
-theorem C28_node (ops : List Op) (hg : ∀ o ∈ ops, o.guarded = true) :
+/-- For every history of AddMonitorItems / RemoveMonitorItems calls — any per-item results,
+    failing calls, unknown items, and requests that share one `*ua.MonitoringParameters`
+    object —: whatever a server item sends, the message is delivered under the node that
+    item samples, or as a "handle not found" error (item removed meanwhile), never under
+    another node. -/
+theorem C28_node (ops : List Op) :
     ∀ it ∈ (runOps St.empty ops).srv, ∀ n, deliver (runOps St.empty ops) it = some n → n = it.node := by
   intro it hit n hd
-  exact ((invA_runOps ops St.empty hg invA_empty).2 it hit).2 n hd
+  exact ((invA_runOps ops St.empty invA_empty).2 it hit).2 n hd
 
 /-- client handles are never reused: every handle of a call is above everything handed
     out before, and the handles of one call are pairwise different -/
@@ -32,24 +33,20 @@ theorem C28_handles_fresh (s : St) (reqs : List Req) (r : Req) (h : Nat)
   (mem_assign hm).2
 
 /-- every mapped handle was handed out (is at most `nextClientHandle`) -/
-theorem C28_handles_bounded (ops : List Op) (hg : ∀ o ∈ ops, o.guarded = true) (k : Nat) (n : Node)
+theorem C28_handles_bounded (ops : List Op) (k : Nat) (n : Node)
     (h : (runOps St.empty ops).handles k = some n) : k ≤ (runOps St.empty ops).next :=
-  (invA_runOps ops St.empty hg invA_empty).1 k n h
+  (invA_runOps ops St.empty invA_empty).1 k n h
 
-/-- FINDING (C28.shared-params-handle-alias).  One AddMonitorItems call, two requests
-    that point to the same MonitoringParameters object: `RequestedParameters.ClientHandle
-    = handle` writes into the shared object, both items go to the server with the *last*
-    handle (102); a data change of node 0 is delivered under node 1. -/
-theorem C28_finding_shared_params :
-    (add St.empty [⟨0, some 7⟩, ⟨1, some 7⟩] [true, true]).srv = [⟨1, 0, 102⟩, ⟨2, 1, 102⟩] ∧
-    deliver (add St.empty [⟨0, some 7⟩, ⟨1, some 7⟩] [true, true]) ⟨1, 0, 102⟩ = some 1 := by
+/-- the former finding C28.shared-params-handle-alias, now repaired: two requests that
+    point to the same MonitoringParameters object go to the server with their own
+    handles (101, 102) and each item's data is delivered under its own node -/
+theorem C28_shared_params_ok :
+    (add St.empty [⟨0, some 7⟩, ⟨1, some 7⟩] [true, true]).srv = [⟨1, 0, 101⟩, ⟨2, 1, 102⟩] ∧
+    deliver (add St.empty [⟨0, some 7⟩, ⟨1, some 7⟩] [true, true]) ⟨1, 0, 101⟩ = some 0 ∧
+    deliver (add St.empty [⟨0, some 7⟩, ⟨1, some 7⟩] [true, true]) ⟨2, 1, 102⟩ = some 1 := by
   decide
 
-/-- the guard of `C28_node` is exactly what the finding violates -/
-theorem C28_finding_outside_guard : (Op.add [⟨0, some 7⟩, ⟨1, some 7⟩] [true, true]).guarded = false := by
-  decide
-
-/-- without sharing the same call is fine -/
+/-- a failed item loses its handle, the others keep theirs -/
 example :
     (add St.empty [⟨0, some 7⟩, ⟨1, some 8⟩, ⟨2, none⟩] [true, false, true]).srv = [⟨1, 0, 101⟩, ⟨2, 2, 103⟩] ∧
     deliver (add St.empty [⟨0, some 7⟩, ⟨1, some 8⟩, ⟨2, none⟩] [true, false, true]) ⟨1, 0, 101⟩ = some 0 ∧
@@ -87,9 +84,10 @@ theorem C28_initial_value_race :
         (fun s => (s.last 5, s.vals 0)) = some (some 9, 9) := by
   decide
 
-/-- with the aliased handle of the finding two items share one queue slot: the state is
+/-- why `SReach` asks for one client handle per item (which `C28_handles_fresh` gives for
+    the monitor): two items with the same handle would share one queue slot — the state is
     quiet and the value delivered for handle 5 is node 0's, not node 1's -/
-theorem C28_finding_shared_handle_no_converge :
+theorem C28_distinct_handles_needed :
     (srun Srv.empty [.create 5 0, .create 5 1, .cn 0, .cn 0, .write 0 9, .cn 0,
         .collect, .collect, .collect, .publish]).map
       (fun s => (s.pending, s.chan, s.last 5, s.vals 1)) = some ([], [], some 9, 0) := by
